@@ -29,7 +29,7 @@ impl Tables {
         let vals: [&str; 6] = match map {
             0 => ["one", "two,", "three", "four", "five,", "six"],
             1 => ["#hash first", "é日 :", ":colon x", "x: y # z", "-dash  ", "tab\there"],
-            _ => ["1", "a b", "😀", "v4", "#v5", "~"],
+            _ => ["v4  ", "a b", "😀", "v4", "#v5", "~"],   // (value 1 = value 4 + trailing blanks: a set that changes trailing blanks only)
         };
         let cmts: [&str; 3] = ["# c1", "#", "# k: looks like a field"];
         let mut t = Tables { keys: HashMap::new(), key_names: HashMap::new(), vals: HashMap::new(), val_texts: HashMap::new(),
